@@ -59,6 +59,7 @@ class History:
         self.D = type('D', (), {'__annotations__': {'x': int}, 'x': 0})
         self.types = dict(P=self.P, S=self.S, N=self.N, K=self.K, D=self.D, SS=StructSeq, B=Builtin)
         self.regs = {}  # model: (ns, typename) -> reg id
+        self.decorated = False
         self.funcs = {}  # reg id -> flatten func
         self.counter = itertools.count(1)
 
@@ -148,8 +149,8 @@ def model_step(h, op, warn_error):
             return 'raise', None  # no tree_flatten / tree_unflatten
         if tn == 'B':
             return 'raise', None
-        if kind == 'dc' and any(k[1] == 'D' for k in h.regs):
-            return 'raise', None  # decorating twice
+        if kind == 'dc' and h.decorated:
+            return 'raise', None  # decorating twice (rejected even after an unregister: the class stays decorated)
         if key in h.regs:
             return 'raise', None
         if is_nt_or_ss(tn) and warn_error:
@@ -290,6 +291,8 @@ def run_history(sink, ops, warn_error, tag):
                         h.regs.pop(key, None)
                     else:
                         h.regs[key] = res if got == 'ok' else ('lost', step)
+                        if op[0] == 'dc':
+                            h.decorated = True
                 sink.count(f'steps:{want}')
                 with warnings.catch_warnings():
                     warnings.simplefilter('ignore')
